@@ -50,6 +50,7 @@ Local Arguments put_bundler {P D}.
 Local Arguments any_bundling {P D}.
 Local Arguments add_status {P D}.
 Local Arguments request_pause {P D}.
+Local Arguments request_pause_in_task {P D}.
 Local Arguments finish_read {P D}.
 Local Arguments mark_cached {P D}.
 Local Arguments exec_cmd {P D}.
@@ -231,6 +232,12 @@ Proof.
   destruct ok; intros H; invc H; fa; try exact I; (eapply Forall_imp'; [exact dq_rpq | exact E]).
 Qed.
 
+Lemma request_pause_in_task_rpq (s : st) d s' e o : request_pause_in_task s d = (s', e, o) -> Forall rpq o.
+Proof.
+  unfold request_pause_in_task. destruct (request_pause s d) as [[s1 e1] o1] eqn:E.
+  intros H; invc H. eapply request_pause_rpq; exact E.
+Qed.
+
 Lemma finish_read_obs (s : st) run d z o0 s' c o : finish_read s run d z o0 = (s', c, o) -> o = o0.
 Proof. unfold finish_read. repeat bmg; intros H; invc H; reflexivity. Qed.
 
@@ -286,6 +293,7 @@ Proof.
            | Hx : dcall _ _ _ _ = _ |- _ => apply dcall_dq in Hx
            | Hx : call_pausables _ _ _ = _ |- _ => apply call_pausables_dq in Hx
            | Hx : request_pause _ _ = _ |- _ => apply request_pause_rpq in Hx
+           | Hx : request_pause_in_task _ _ = _ |- _ => apply request_pause_in_task_rpq in Hx
            | Hx : finish_read _ _ _ _ _ = _ |- _ => apply finish_read_obs in Hx; subst
            end;
     try assumption; try (eapply Forall_imp'; [exact dq_rpq | eassumption]); try (repeat constructor; fail).
@@ -397,6 +405,12 @@ Proof.
   destruct ok; intros H; invc H; [rewrite cancel_task_aux|change (aux (set_ghost s3 (icause s3) (late_pause s3) true)) with (aux s3)]; congruence.
 Qed.
 
+Lemma request_pause_in_task_aux (s : st) d s' e o : request_pause_in_task s d = (s', e, o) -> aux s' = aux s.
+Proof.
+  unfold request_pause_in_task. destruct (request_pause s d) as [[s1 e1] o1] eqn:E.
+  apply request_pause_aux in E. intros H; invc H. destruct (resumable s); exact E.
+Qed.
+
 Lemma finish_read_aux (s : st) run d z o0 s' c o : finish_read s run d z o0 = (s', c, o) -> aux s' = aux s.
 Proof. unfold finish_read. repeat bmg; intros H; invc H; reflexivity. Qed.
 
@@ -411,6 +425,7 @@ Proof.
            | Hx : dcall _ _ _ _ = _ |- _ => apply dcall_aux in Hx
            | Hx : call_pausables _ _ _ = _ |- _ => apply call_pausables_aux in Hx
            | Hx : request_pause _ _ = _ |- _ => apply request_pause_aux in Hx
+           | Hx : request_pause_in_task _ _ = _ |- _ => apply request_pause_in_task_aux in Hx
            | Hx : finish_read _ _ _ _ _ = _ |- _ => apply finish_read_aux in Hx
            end;
     rewrite ?reset_checkpoint_aux; unfold aux in *; cbn in *; rewrite ?reset_checkpoint_aux; try congruence; try reflexivity.
